@@ -11,6 +11,7 @@ package vp8 // import "verif/ximage/vp8"
 
 import (
 	"errors"
+	"fmt"
 	"image"
 	"io"
 )
@@ -402,4 +403,13 @@ func (d *Decoder) DecodeFrame() (*image.YCbCr, error) {
 		}
 	}
 	return d.img, nil
+}
+
+// DebugFilterParams (local addition for verification) returns "level/ilevel/hlevel/inner" per macroblock.
+func (d *Decoder) DebugFilterParams() []string {
+	out := make([]string, len(d.perMBFilterParams))
+	for i, f := range d.perMBFilterParams {
+		out[i] = fmt.Sprintf("%d/%d/%d/%v", f.level, f.ilevel, f.hlevel, f.inner)
+	}
+	return out
 }
